@@ -121,7 +121,7 @@ def h_interfere(e1: int, a1: int, e2: int, a2: int) -> bool:
         n, ref = reference()
     plan = []
     lo1 = int(cube("e_lo", -1))
-    hi1 = min(int(cube("e_hi", n)), n)
+    hi1 = max(lo1, min(int(cube("e_hi", n)), n))
     k1 = pick(e1, lo1, hi1)
     act1 = int(cube("a1")) if cube("a1", None) is not None else pick(a1, 0, len(ACTIONS) - 1)
     plan.append((k1, ACTIONS[act1]))
